@@ -30,10 +30,11 @@ func main() { drv.Main("C05", "exploration", run) }
 // ---------- key universe ----------
 
 // prefix-related names, first ('-') and last ('~') safe characters, numeric look-alikes
-var baseKeys = []string{"-", "0", "a", "a-", "a0", "aa", "ab", "a~", "b", "k1", "k10", "~"}
+// and two legal names beyond the Basic Multilingual Plane (first byte 0xF0: they sort after every 1..3-byte character)
+var baseKeys = []string{"-", "0", "a", "a-", "a0", "aa", "ab", "a~", "b", "k1", "k10", "~", "\U0001F600", "\U0001F600a"}
 
 // interval ends that are NOT keys (fall between / after keys)
-var baseExtras = []string{"--", "a1", "aaa", "k0", "zz", "~~"}
+var baseExtras = []string{"--", "a1", "aaa", "k0", "zz", "~~", "\uffff"}
 
 const alphabet = "-0_ak~"
 
